@@ -12,6 +12,8 @@ THREADINGS = {
     "single": "eventpp::SingleThreading",
     "multi": "eventpp::MultipleThreading",
     "spin": "eventpp::GeneralThreading<eventpp::SpinLock>",
+    # harness/common.h: use-after-destruction of a mutex and self-deadlock are reported instead of going unnoticed / hanging
+    "checked": "eventpp::GeneralThreading<CheckedMutex,std::atomic,std::condition_variable_any>",
 }
 
 
